@@ -47,6 +47,7 @@ type c14Model struct {
 	named *types.Named
 
 	fCtx, fCancel, fOut, fWG, fVisited, fDS *types.Var
+	fieldOwner                              map[*types.Var]*types.Named // the struct type declaring each role field
 
 	ctor, next, closeFn, walk *FuncInfo
 	idParam, pathParam        *types.Var
@@ -149,7 +150,7 @@ func c14IsRelIDChan(t types.Type) bool {
 }
 
 func c14Load(p *core.Program) *c14Model {
-	m := &c14Model{p: p, ord: map[*c14Graph]*c14Val{}}
+	m := &c14Model{p: p, ord: map[*c14Graph]*c14Val{}, fieldOwner: map[*types.Var]*types.Named{}}
 	fail := func(format string, args ...interface{}) *c14Model {
 		m.anchors = append(m.anchors, fmt.Sprintf(format, args...))
 		return m
@@ -165,20 +166,36 @@ func c14Load(p *core.Program) *c14Model {
 		return fail("annotate.ChildFirstOrdering (struct)")
 	}
 	m.named = named
-	uniq := func(role string, pred func(types.Type) bool) *types.Var {
-		var got *types.Var
-		n := 0
+	// the fields are looked for in the ordering itself and in struct types of this package it embeds by value or by
+	// pointer (a `{ctx, cancel}` pair, a set type wrapping the map): grouping fields into a struct does not change roles
+	var collect func(st *types.Struct, owner *types.Named, pred func(types.Type) bool, depth int, out *[]*types.Var)
+	collect = func(st *types.Struct, owner *types.Named, pred func(types.Type) bool, depth int, out *[]*types.Var) {
 		for i := 0; i < st.NumFields(); i++ {
-			if pred(st.Field(i).Type()) {
-				got = st.Field(i)
-				n++
+			f := st.Field(i)
+			if pred(f.Type()) {
+				*out = append(*out, f)
+				m.fieldOwner[f] = owner
+				continue
+			}
+			t := f.Type()
+			if pt, ok := t.(*types.Pointer); ok {
+				t = pt.Elem()
+			}
+			if nt, ok := t.(*types.Named); ok && depth < 2 && nt.Obj().Pkg() == pk.Types {
+				if inner, ok := nt.Underlying().(*types.Struct); ok {
+					collect(inner, nt, pred, depth+1, out)
+				}
 			}
 		}
-		if n != 1 {
-			fail("ChildFirstOrdering field in the role %q (found %d, want exactly 1)", role, n)
+	}
+	uniq := func(role string, pred func(types.Type) bool) *types.Var {
+		var got []*types.Var
+		collect(st, named, pred, 0, &got)
+		if len(got) != 1 {
+			fail("ChildFirstOrdering field in the role %q (found %d, want exactly 1)", role, len(got))
 			return nil
 		}
-		return got
+		return got[0]
 	}
 	m.fCtx = uniq("cancellable context (context.Context)", func(t types.Type) bool { return namedPath(t) == "context.Context" })
 	m.fCancel = uniq("cancel function (context.CancelFunc)", func(t types.Type) bool { return namedPath(t) == "context.CancelFunc" })
